@@ -20,14 +20,12 @@ EXPECT = {
     "revert-e0959cf": (["C15"], ["C09"]),
     "revert-0cbc6a1": (["C15"], ["C09"]),
     "revert-c6b3543": (["C15"], ["C09"]),
-    "revert-5daaefa": (["C15"], ["C09"]),
-    "revert-ef72096": (["C15"], ["C09"]),
+    "revert-5daaefa+ef72096": (["C15"], ["C09"]),
     "revert-ddea758": (["C15"], ["C08"]),
     "revert-f66c2ca": (["C15"], ["C09"]),
     "revert-8cec961": (["C15"], ["C09"]),
     "m-compress-cli-unordered": (["C01", "C11", "C12"], ["C08"]),
     "m-compress-lib-unordered": (["C01", "C11", "C12"], ["C08"]),
-    "m-reorder-no-self-filter": (["C03"], ["C09"]),
     "m-no-strip-in-place": (["C13"], ["C09"]),
     "m-range-end-off-by-one": (["C07", "C08"], ["C09"]),
     "m-resume-no-offset-advance": (["C08"], ["C09"]),
@@ -42,16 +40,35 @@ EXPECT = {
     "m-output-opened-before-header-check": (["C14"], ["C09"]),
     "m-seed-opened-read-write": (["C16"], ["C09"]),
     "m-reader-assumes-contiguous": (["C17"], ["C01"]),
-    "m-clone-truncates-on-force": (["C13", "C14"], ["C09"]),
+    "m-clone-truncates-on-force": (["C14"], ["C09"]),
     "m-set-len-skipped-when-shorter": (["C03"], ["C09"]),
-    "m-hash-truncate-lookup": (["C02"], ["C09"]),
+    "m-hash-truncate-lookup": (["C06"], ["C09"]),
+}
+
+
+SEEDED = {
+    "C01-A": ["C01", "C11"], "C01-B": ["C01", "C11"], "C02-A": ["C02"], "C02-B": ["C05", "C02"], "C03-A": ["C03"], "C03-B": ["C03", "C06"],
+    "C05-A": ["C05"], "C05-B": ["C05"], "C06-A": ["C06", "C03"], "C06-B": ["C06", "C07"], "C08-A": ["C08"], "C08-B": ["C08"],
+    "C09-A": ["C09", "C12"], "C09-B": ["C09"], "C12-A": ["C12", "C11"], "C12-B": ["C12", "C09"], "C17-A": ["C17"], "C17-B": ["C17"],
+    "C04-A": ["C04"], "C04-B": ["C04"], "C07-A": ["C07"], "C07-B": ["C07"], "C11-A": ["C11"], "C11-B": ["C11"], "C13-A": ["C13"], "C13-B": ["C13"],
+    "C14-A": ["C14"], "C14-B": ["C14"], "C15-A": ["C15"], "C15-B": ["C15"], "C16-A": ["C16"], "C16-B": ["C16"],
 }
 
 
 def main():
     args = [a for a in sys.argv[1:] if not a.startswith("--")]
     patches = sorted(glob.glob(os.path.join(VERIF, "mutants", "*.patch")))
-    res_path = os.path.join(VERIF, "mutants", "RESULTS.json")
+    if "--seeded" in sys.argv:
+        patches = []
+        for d in sorted(glob.glob(os.path.join(VERIF, "seeded", "*"))):
+            key = os.path.basename(d)
+            link = os.path.join("/tmp/bita-mut", "seeded-%s.patch" % key)
+            os.makedirs("/tmp/bita-mut", exist_ok=True)
+            import shutil
+            shutil.copy(os.path.join(d, "patch.diff"), link)
+            patches.append(link)
+            EXPECT["seeded-" + key] = (SEEDED.get(key, [key.split("-")[0]]), ["C14" if not key.startswith("C14") else "C09"])
+    res_path = os.path.join(VERIF, "seeded" if "--seeded" in sys.argv else "mutants", "RESULTS.json")
     results = json.load(open(res_path)) if os.path.exists(res_path) else {}
     for patch in patches:
         name = os.path.splitext(os.path.basename(patch))[0]
